@@ -255,6 +255,30 @@ def _cases_core(rng, tier):
                 yield "b32_dec %s %s" % (sx(hrp_), sx(a)), "hrp-prefix-relation"
                 yield "b32_dec %s %s" % (sx(hrp_), sx(a.upper())), "hrp-prefix-relation"
                 yield "b32_dec %s %s" % (sx(real), sx(a)), "hrp-prefix-relation-own"
+    # ZERO checksum register: prefixes after whose expansion the 30-bit register is exactly 0 (solved by linear algebra
+    # over GF(2), the register being affine in the input bits), and programs after which it is 0 just before the six
+    # checksum symbols — a register value a resumable / short-cut implementation confuses with "not started"
+    for hrp_ in zero_register_hrps(rng, 3 if tier == "quick" else 25):
+        for ver_ in (0, 1, rng.randrange(2, 17)):
+            prog_ = rb(rng.choice([20, 32]) if ver_ == 0 else rng.choice([2, 20, 32, 40]))
+            a = indep_encode(hrp_, ver_, prog_)
+            yield "b32_enc %s %d %s" % (sx(hrp_), ver_, hx(prog_)), "zero-register-hrp-encode"
+            yield "b32_dec %s %s" % (sx(hrp_), sx(a)), "zero-register-hrp-decode"
+            j_ = rng.randrange(len(hrp_) + 1, len(a))
+            bad = a[:j_] + rng.choice([c for c in B32 if c != a[j_]]) + a[j_ + 1:]
+            yield "b32_dec %s %s" % (sx(hrp_), sx(bad)), "zero-register-hrp-decode-bad"
+        yield "polymod " + impl.lst(str, [ord(x) >> 5 for x in hrp_] + [0] + [ord(x) & 31 for x in hrp_]), "zero-register-polymod"
+    for hrp_ in ("bc", "tb"):
+        for ver_, nb in ((0, 20), (0, 32), (1, 32)) if tier == "quick" else ((0, 20), (0, 32), (1, 32), (16, 40), (2, 20)):
+            prog_ = zero_register_program(rng, hrp_, ver_, nb)
+            if prog_ is None:
+                continue
+            a = indep_encode(hrp_, ver_, prog_)
+            yield "b32_enc %s %d %s" % (sx(hrp_), ver_, hx(prog_)), "zero-register-program-encode"
+            yield "b32_dec %s %s" % (sx(hrp_), sx(a)), "zero-register-program-decode"
+            j_ = rng.randrange(len(hrp_) + 1, len(a))
+            bad = a[:j_] + rng.choice([c for c in B32 if c != a[j_]]) + a[j_ + 1:]
+            yield "b32_dec %s %s" % (sx(hrp_), sx(bad)), "zero-register-program-decode-bad"
     # a valid address with one line terminator / blank / control / invisible character in front of it or behind it
     for hrp_, ver_, ln_ in (("bc", 0, 20), ("tb", 0, 32), ("bc", 1, 32), ("bcrt", 16, 2)):
         good = indep_encode(hrp_, ver_, rb(ln_))
@@ -499,6 +523,104 @@ def literal_ops(lit):
         yield "b32_enc %s %d %s" % (sx("bc"), lit, hx(bytes(20)))
     if lit <= 84:
         yield "b32_enc %s 1 %s" % (sx("x" * lit), hx(bytes(20)))
+
+
+def _gf2_solve(cols, target, nbits=30):
+    """x (bit list) with XOR of cols[j] for x[j]=1 equal to target; returns (particular solution, nullspace basis) or None"""
+    rows = []           # (vector, combination mask)
+    piv = {}
+    null = []
+    for j, c in enumerate(cols):
+        v, m = c, 1 << j
+        for b in range(nbits - 1, -1, -1):
+            if not (v >> b) & 1:
+                continue
+            if b in piv:
+                pv, pm_ = piv[b]
+                v ^= pv
+                m ^= pm_
+            else:
+                piv[b] = (v, m)
+                break
+        if v == 0:
+            null.append(m)
+    v, m = target, 0
+    for b in range(nbits - 1, -1, -1):
+        if (v >> b) & 1:
+            if b not in piv:
+                return None
+            pv, pm_ = piv[b]
+            v ^= pv
+            m ^= pm_
+    return m, null
+
+
+def zero_register_hrps(rng, count, L=8):
+    """lower-case prefixes of L letters with polymod(hrp_expand(prefix)) == 0"""
+    def f(lows):
+        return polymod([3] * L + [0] + lows)
+    base = f([0] * L)
+    cols = []
+    for i in range(L):
+        for b in range(5):
+            lows = [0] * L
+            lows[i] = 1 << b
+            cols.append(f(lows) ^ base)
+    sol = _gf2_solve(cols, base)
+    if sol is None:
+        return []
+    m0, null = sol
+    out = []
+    for _ in range(4000):
+        m = m0
+        for nv in null:
+            if rng.random() < 0.5:
+                m ^= nv
+        lows = [(m >> (5 * i)) & 31 for i in range(L)]
+        if all(1 <= v <= 26 for v in lows):
+            h = "".join(chr(96 + v) for v in lows)
+            if polymod([ord(x) >> 5 for x in h] + [0] + [ord(x) & 31 for x in h]) == 0 and h not in out:
+                out.append(h)
+                if len(out) >= count:
+                    break
+    return out
+
+
+def zero_register_program(rng, hrp, ver, nbytes):
+    """a witness program of nbytes bytes such that the register is 0 after prefix + version + program symbols"""
+    nsym = (nbytes * 8 + 4) // 5
+    pad = nsym * 5 - nbytes * 8
+    head = [ord(x) >> 5 for x in hrp] + [0] + [ord(x) & 31 for x in hrp] + [ver]
+    for _ in range(40):
+        free = [rng.randrange(32) for _ in range(nsym - 7)]
+
+        def f(tail):
+            return polymod(head + free + tail)
+        base = f([0] * 7)
+        cols = []
+        for i in range(7):
+            for b in range(5):
+                if i == 6 and b < pad:
+                    continue            # padding bits stay zero
+                t_ = [0] * 7
+                t_[i] = 1 << b
+                cols.append((f(t_) ^ base, i, b))
+        sol = _gf2_solve([c[0] for c in cols], base)
+        if sol is None:
+            continue
+        m = sol[0]
+        tail = [0] * 7
+        for j, (_, i, b) in enumerate(cols):
+            if (m >> j) & 1:
+                tail[i] |= 1 << b
+        syms = free + tail
+        if polymod(head + syms) != 0:
+            continue
+        bits = 0
+        for v in syms:
+            bits = (bits << 5) | v
+        return (bits >> pad).to_bytes(nbytes, "big")
+    return None
 
 
 def cases(rng, tier):
